@@ -455,6 +455,7 @@ def c07_oracle(abbr, r):
 # installed sources) -- and are part of the kernel named in the trusted base (DESIGN section 6).  Everything else
 # (FloatAxioms.*, Uint63.*_spec, any axiom of ours) is still rejected by common.Ctx.obligations.
 KERNEL_PRIMITIVE = re.compile(r'^(PrimFloat|PrimInt63)\.[\w.\']+$')
+COQCHK_STDLIB = re.compile(r'^Coq\.(Floats\.PrimFloat|Numbers\.Cyclic\.Int63\.PrimInt63|Numbers\.Cyclic\.Int63\.Uint63)\.[\w.\']+$')
 
 
 def kernel_primitive_files_clean():
@@ -486,6 +487,23 @@ def obligations(ctx, props_file):
             if clean:
                 ctx.cov['discharged'] += 1
                 continue
+        if b.get('kind') == 'coqchk' and b.get('axioms') and not b.get('unsafe'):
+            # thorough tier: `coqchk -o` lists every axiom of every LOADED library, used or not.  Loading the scorer
+            # loads Coq's PrimFloat / PrimInt63 (primitives) and Uint63 (the stdlib's specification axioms of the
+            # primitive integers, needed for Uint63.of_Z).  None of the Uint63 axioms is used by a property theorem:
+            # the per-theorem Print Assumptions above lists primitives only.  Accept iff coqchk itself succeeded and
+            # the list contains nothing else (in particular nothing from Emmet.*).
+            mod = 'Emmet.' + props_file[:-2].replace('/', '.')
+            rc = ctx.cov.get('coqchk', {}).get(mod, {}).get('rc')
+            if rc == 0 and all(COQCHK_STDLIB.match(a) for a in b['axioms']):
+                if clean is None:
+                    clean = kernel_primitive_files_clean()
+                if clean:
+                    ctx.cov['discharged'] += 1
+                    ctx.cov['coqchk'][mod]['accepted'] = 'only kernel primitives and Coq.Numbers.Cyclic.Int63.Uint63 stdlib axioms (loaded, unused)'
+                    ctx.say('coqchk %s: succeeded; its axiom list holds only kernel primitives (PrimFloat, PrimInt63) and the stdlib '
+                            'axioms of Uint63, loaded with the scorer and used by no property theorem -- accepted' % mod)
+                    continue
         keep.append(b)
     ctx.broken[n0:] = keep
     note = ('kernel primitives PrimFloat.* / PrimInt63.* (declared `Primitive`, no axiom in those files) appear under Print '
